@@ -231,7 +231,8 @@ Record ctx := mkCtx {
   c_s : nat;              (* handle of the timeout call *)
   c_sig : sigtab;         (* the signal table while the reactor spins *)
   c_saved : sigtab;
-  c_rd : list nat         (* selectables registered by the function *)
+  c_rd : list nat;        (* selectables registered by the function *)
+  c_ht : list nat         (* tokens of the delayed calls scheduled by start-up hooks *)
 }.
 
 Section OneRun.
@@ -250,7 +251,7 @@ Section OneRun.
     | AStopReq => exists st, f_stop f = Some st /\ dc_time c = c_n0 x + st
     | ANoop t => 10 <= t
     | ATry t _ => 10 <= t
-    | ARunFunction _ _ => False
+    | ARunFunction _ _ | AHook _ _ => False
     end.
 
   (* every event that can end the run is still scheduled *)
@@ -283,7 +284,9 @@ Section OneRun.
     i_phase : running (w_r w) = true -> E w = [] /\ sp_spinning (w_sp w) = true /\ present (queue (w_r w));
     i_live : running (w_r w) = true \/ E w <> [];
     i_early : forall k, In k (E w) -> ev_time T f k = Some estar;
-    i_perm : Permutation (filter nt (w_ran w) ++ filter nt (map tokc (queue (w_r w))) ++ c_rd x) (sched_tokens f)
+    i_perm : Permutation (filter nt (w_ran w) ++ filter nt (map tokc (queue (w_r w))) ++ c_rd x)
+                         (c_ht x ++ sched_tokens f);
+    i_ht : forall t, In t (c_ht x) -> 10 <= t
   }.
 
   (* ---- events and their instants ---- *)
@@ -324,12 +327,13 @@ Section OneRun.
   (* a legitimate call that can end the run carries its event's instant *)
   Lemma legit_ev c : legit c -> tokc c <= 2 -> exists t, ev_time T f (tokc c) = Some t /\ dc_time c = c_n0 x + t.
   Proof.
-    unfold legit, tokc. intros [_ H] Hk. destruct (dc_act c) as [|o| |tk|tk oo|]; simpl in *.
+    unfold legit, tokc. intros [_ H] Hk. destruct (dc_act c) as [|o| |tk|tk oo| |]; simpl in *.
     - exists T. split; [reflexivity | apply H].
     - destruct H as [t [Es Ht]]. exists t. rewrite Es. split; [reflexivity | exact Ht].
     - destruct H as [st [Es Ht]]. exists st. split; assumption.
     - lia.
     - lia.
+    - destruct H.
     - destruct H.
   Qed.
 
@@ -353,8 +357,9 @@ Section OneRun.
   Lemma count_app_nat (a b : list nat) k : count (a ++ b) k = count a k + count b k.
   Proof. unfold count. apply count_occ_app. Qed.
 
-  Lemma count_fire_sched : count (sched_tokens f) 1 <= 1.
+  Lemma count_fire_sched : (forall t, In t (c_ht x) -> 10 <= t) -> count (c_ht x ++ sched_tokens f) 1 <= 1.
   Proof.
+    intro Hht. rewrite count_app_nat. rewrite (count_notin (c_ht x)) by (intro H; apply Hht in H; lia).
     unfold sched_tokens. rewrite !count_app_nat.
     rewrite (count_notin (map tok_extra _)), (count_notin (map tok_sel _)).
     - destruct (f_stop f), (f_shape f); simpl; lia.
@@ -370,7 +375,7 @@ Section OneRun.
     intros HI Hh Hin Ha. pose proof (i_perm w HI) as P.
     assert (Hc : count (filter nt (w_ran w) ++ filter nt (map tokc (queue (w_r w))) ++ c_rd x) 1 <= 1).
     { pose proof (proj1 (@Permutation_count_occ nat Nat.eq_dec _ _) P 1) as HH. unfold count. rewrite HH.
-      apply count_fire_sched. }
+      apply count_fire_sched. exact (i_ht w HI). }
     rewrite !count_app_nat in Hc.
     assert (H1 : 1 <= count (filter nt (w_ran w)) 1).
     { apply count_in_pos. apply filter_In. split; [|reflexivity].
@@ -449,13 +454,13 @@ Section Step.
     assert (Hleg : legit x c). { eapply Forall_forall; [apply (i_legit x w HI)|exact Hin]. }
     pose proof (first_time x w c HI Hin Hmin HE) as Hfirst.
     pose proof (fun o => fire_once x w c o HI) as Hfire.
-    destruct HI as [Hnd Hlg Hst Hrs Hhk Hrd Hsg Hfl Hre Hjk Hsv Htc Hstate Hphase Hlive Hearly Hperm].
+    destruct HI as [Hnd Hlg Hst Hrs Hhk Hrd Hsg Hfl Hre Hjk Hsv Htc Hstate Hphase Hlive Hearly Hperm Hht].
     destruct w as [[n sq q h rd run rs orc] st sg fl [su fa jk spn tc sv] ran re].
     unfold E in *. prj. subst.
     assert (Hrunf : (if spn then false else run) = false).
     { destruct spn; [reflexivity|]. destruct run; [|reflexivity]. destruct (Hphase eq_refl) as [_ [? _]]. discriminate. }
     destruct c as [ct cs ca]. unfold legit in Hleg; prj. destruct Hleg as [Hs_act Hleg]. unfold tokc in Hfirst; prj.
-    destruct ca as [|o| |tk|tk oo|]; cbv zeta.
+    destruct ca as [|o| |tk|tk oo| |]; cbv zeta.
     - (* the timeout call *)
       destruct Hleg as [-> ->].
       assert (Hpend : seq_in (c_s x) q = true).
@@ -469,7 +474,7 @@ Section Step.
       { subst w'. destruct spn; reflexivity. }
       rewrite Ew'. clear w' Ew'. rewrite Hrunf. prj.
       split; [|split; [|split]].
-      + constructor; unfold E; prj; try reflexivity; try exact Hre.
+      + constructor; unfold E; prj; try reflexivity; try exact Hht; try exact Hre.
         * apply nodup_remove_seq; exact Hnd.
         * apply legit_remove; exact Hlg.
         * apply StB; [apply seq_in_remove_same | | reflexivity].
@@ -506,7 +511,7 @@ Section Step.
           destruct spn, o; reflexivity. }
         rewrite Ew'. clear w' Ew'. rewrite Hrunf. prj.
         split; [|split; [|split]].
-        * constructor; unfold E; prj; try reflexivity; try exact Hre.
+        * constructor; unfold E; prj; try reflexivity; try exact Hht; try exact Hre.
           -- apply nodup_remove_seq, nodup_remove_seq; exact Hnd.
           -- apply legit_remove, legit_remove; exact Hlg.
           -- apply StC; [apply seq_in_remove_same | | | ].
@@ -535,7 +540,7 @@ Section Step.
           destruct spn; reflexivity. }
         rewrite Ew'. clear w' Ew'. rewrite Hrunf. prj.
         split; [|split; [|split]].
-        * constructor; unfold E; prj; try reflexivity; try exact Hre.
+        * constructor; unfold E; prj; try reflexivity; try exact Hht; try exact Hre.
           -- apply nodup_remove_seq; exact Hnd.
           -- apply legit_remove; exact Hlg.
           -- apply StB; [congruence | | exact Hfa].
@@ -564,7 +569,7 @@ Section Step.
       { subst w'. reflexivity. }
       rewrite Ew'. clear w' Ew'. prj.
       split; [|split; [|split]].
-      + constructor; unfold E; prj; try reflexivity; try exact Hre.
+      + constructor; unfold E; prj; try reflexivity; try exact Hht; try exact Hre.
         * apply nodup_remove_seq; exact Hnd.
         * apply legit_remove; exact Hlg.
         * eapply st_ok_ext; [exact Hstate | exact Hpq | |]; rewrite crash_toks_app, has_app; apply orb_false_r.
@@ -590,7 +595,7 @@ Section Step.
       { subst w'. reflexivity. }
       rewrite Ew'. clear w' Ew'. prj.
       split; [|split; [|split]].
-      + constructor; unfold E; prj; try reflexivity; try exact Hre; rewrite ?Hct.
+      + constructor; unfold E; prj; try reflexivity; try exact Hht; try exact Hre; rewrite ?Hct.
         * apply nodup_remove_seq; exact Hnd.
         * apply legit_remove; exact Hlg.
         * eapply st_ok_ext; [exact Hstate | exact Hpq | reflexivity | reflexivity].
@@ -620,7 +625,7 @@ Section Step.
       { subst w'. unfold exec_call, popw, try_reenter, log_ran, set_ran, set_r. prj. rewrite Hinn by reflexivity. reflexivity. }
       rewrite Ew'. clear w' Ew'. prj.
       split; [|split; [|split]].
-      + constructor; unfold E; prj; try reflexivity; rewrite ?Hct; [| |apply reentry_okb_snoc; exact Hre| | | | |].
+      + constructor; unfold E; prj; try reflexivity; try exact Hht; rewrite ?Hct; [| |apply reentry_okb_snoc; exact Hre| | | | |].
         * apply nodup_remove_seq; exact Hnd.
         * apply legit_remove; exact Hlg.
         * eapply st_ok_ext; [exact Hstate | exact Hpq | reflexivity | reflexivity].
@@ -637,6 +642,7 @@ Section Step.
       + rewrite Hct. exact HE.
       + apply incl_remove.
       + exact (remove_seq_length_lt q _ Hin).
+    - destruct Hleg.
     - destruct Hleg.
   Qed.
 End Step.
@@ -811,26 +817,67 @@ Definition sig_fn (f : fn) (sg : sigtab) : sigtab :=
   match f_setsig f with Some (s, h) => setsig s h sg | None => sg end.
 Definition is_sync (f : fn) : bool := match f_shape f with Sync _ _ => true | _ => false end.
 
+(* the delayed calls scheduled by the start-up hooks that were registered before run() *)
+Fixpoint hook_calls (n : time) (s j : nat) (hs : list hook) : list call :=
+  match hs with
+  | [] => []
+  | HSched d :: r => mkCall (n + d) s (ANoop (tok_hook j)) :: hook_calls n (S s) (S j) r
+  | _ :: r => hook_calls n s (S j) r
+  end.
+
+Lemma hook_calls_seqs n hs : forall s j, map dc_seq (hook_calls n s j hs) = seq s (length (hook_calls n s j hs)).
+Proof.
+  induction hs as [|[|d|] hs IH]; intros s j; simpl; [reflexivity|apply IH| |apply IH]. rewrite IH. reflexivity.
+Qed.
+
+Lemma hook_calls_toks n hs : forall s j, map tokc (hook_calls n s j hs) = hook_tokens j hs.
+Proof.
+  induction hs as [|[|d|] hs IH]; intros s j; simpl; [reflexivity|apply IH| |apply IH]. rewrite IH. reflexivity.
+Qed.
+
+Lemma hook_calls_in n hs c : forall s j, In c (hook_calls n s j hs) ->
+  (exists j', dc_act c = ANoop (tok_hook j')) /\ s <= dc_seq c < s + length (hook_calls n s j hs).
+Proof.
+  induction hs as [|[|d|] hs IH]; intros s j; simpl; [intros []|apply IH| |apply IH].
+  intros [<-|H]; simpl.
+  - split; [eexists; reflexivity | lia].
+  - destruct (IH _ _ H) as [H1 H2]. split; [exact H1 | lia].
+Qed.
+
+Lemma hook_tokens_ge hs : forall j t, In t (hook_tokens j hs) -> 10 <= t.
+Proof.
+  induction hs as [|[|d|] hs IH]; intros j t; simpl; [intros []|apply IH| |apply IH].
+  intros [<-|H]; [unfold tok_hook; lia | eapply IH; exact H].
+Qed.
+
+Lemma filter_nt_hook_tokens hs : forall j, filter nt (hook_tokens j hs) = hook_tokens j hs.
+Proof.
+  induction hs as [|[|d|] hs IH]; intro j; simpl; [reflexivity|apply IH| |apply IH]. rewrite IH. reflexivity.
+Qed.
+
 Section AfterFunction.
-  Variables (n T : time) (f : fn) (sq : nat) (orc : list nat) (sg SV : sigtab) (re : list bool) (iters : nat) (batch : bool).
+  Variables (n T : time) (f : fn) (sq : nat) (orc : list nat) (sg SV : sigtab) (re : list bool) (iters : nat) (batch : bool) (hs : list hook).
 
   Definition tmo : call := mkCall (n + T) sq ATimeout.
   Definition k_ex := length (f_extras f).
-  Definition s_stop := k_ex + S sq.
+  Definition qh : list call := hook_calls n (S sq) 0 hs.        (* scheduled by the start-up hooks *)
+  Definition sqn := length qh + S sq.                           (* the next handle when the function is called *)
+  Definition run0 : bool := negb (stopped_early hs).            (* still running when the function is called *)
+  Definition s_stop := k_ex + sqn.
   Definition s_fire := length (q_stop n s_stop f) + s_stop.
-  Definition q_mid : list call := mk_extras n (S sq) 0 (f_extras f) ++ q_stop n s_stop f.
+  Definition q_mid : list call := (qh ++ mk_extras n sqn 0 (f_extras f)) ++ q_stop n s_stop f.
   Definition q_rest : list call := q_mid ++ q_fire n s_fire f.
   Definition rd2 : list nat := map tok_sel (seq 0 (f_sels f)).
   Definition re2 : list bool := re ++ map (fun _ => true) (f_reenter f).
 
   (* the world in which the callWhenRunning hook calls the function *)
   Definition w_hook : world :=
-    mkW (mkReactor n (S sq) [tmo] [] [] true false orc) SFake sg true
+    mkW (mkReactor n sqn (tmo :: qh) [] [] run0 false orc) SFake sg true
         (mkSp None None [] true (Some sq) SV) [] re.
 
   (* ... and just before the function returns *)
   Definition w_pre : world :=
-    mkW (mkReactor n s_fire (tmo :: q_mid) [] rd2 (negb (f_stop_now f)) false orc) SFake (sig_fn f sg) true
+    mkW (mkReactor n s_fire (tmo :: q_mid) [] rd2 (if f_stop_now f then false else run0) false orc) SFake (sig_fn f sg) true
         (mkSp None None [] true (Some sq) SV) [] re2.
 
   Definition w_after : world :=
@@ -841,14 +888,16 @@ Section AfterFunction.
                   (match o with Succeed _ => None | Fail e => Some (EUser e) end)
                   [] false (Some sq) SV) [] re2
     | _ =>
-        mkW (mkReactor n (length (q_fire n s_fire f) + s_fire) (tmo :: q_rest) [] rd2 (negb (f_stop_now f)) false orc)
+        mkW (mkReactor n (length (q_fire n s_fire f) + s_fire) (tmo :: q_rest) [] rd2 (if f_stop_now f then false else run0) false orc)
             SFake (sig_fn f sg) true (mkSp None None [] true (Some sq) SV) [] re2
     end.
 
   Lemma q_rest_seqs c : In c q_rest -> sq < dc_seq c.
   Proof.
     unfold q_rest, q_mid, q_stop, q_fire, s_fire, s_stop, q_stop, k_ex. intro H.
-    apply in_app_or in H as [H|H]; [apply in_app_or in H as [H|H]|].
+    unfold sqn in *.
+    apply in_app_or in H as [H|H]; [apply in_app_or in H as [H|H]; [apply in_app_or in H as [H|H]|]|].
+    - apply hook_calls_in in H. lia.
     - apply mk_extras_in in H; lia.
     - destruct (f_stop f); simpl in H; [destruct H as [<-|[]]; simpl; lia | destruct H].
     - destruct (f_shape f); simpl in H; try destruct H as [<-|[]]; try destruct H. simpl. lia.
@@ -896,16 +945,20 @@ Section AfterFunction.
   Proof. rewrite run_function_pre. apply shape_step. Qed.
 
   (* ---- the loop invariant holds when the loop is entered ---- *)
-  Definition cx : ctx := mkCtx n T f sq (sig_fn f sg) SV rd2.
+  Definition cx : ctx := mkCtx n T f sq (sig_fn f sg) SV rd2 (hook_tokens 0 hs).
 
   Lemma q_all_nodup : NoDup (map dc_seq (tmo :: q_rest)).
   Proof.
     simpl. constructor.
     - intro H. apply in_map_iff in H as [c [Hs Hc]]. apply q_rest_seqs in Hc. lia.
-    - unfold q_rest, q_mid. rewrite !map_app, mk_extras_seqs, <- app_assoc. apply nodup_seq_tail.
-      + unfold q_stop, q_fire, s_fire, s_stop, q_stop, k_ex. intros y Hy.
+    - unfold q_rest, q_mid. rewrite !map_app, mk_extras_seqs. unfold qh at 1. rewrite hook_calls_seqs. fold qh.
+      replace (seq (S sq) (length qh) ++ seq sqn (length (f_extras f)))
+        with (seq (S sq) (length qh + length (f_extras f)))
+        by (rewrite seq_app; unfold sqn; rewrite (Nat.add_comm (S sq)); reflexivity).
+      rewrite <- app_assoc. apply nodup_seq_tail.
+      + unfold q_stop, q_fire, s_fire, s_stop, q_stop, k_ex, sqn. intros y Hy.
         destruct (f_stop f), (f_shape f); simpl in Hy; intuition lia.
-      + unfold q_stop, q_fire, s_fire, s_stop, q_stop, k_ex.
+      + unfold q_stop, q_fire, s_fire, s_stop, q_stop, k_ex, sqn.
         destruct (f_stop f), (f_shape f); simpl; repeat constructor; simpl; intuition lia.
   Qed.
 
@@ -915,7 +968,9 @@ Section AfterFunction.
     - split; [reflexivity|]. simpl. split; reflexivity.
     - apply Forall_forall. intros c Hc. split.
       + intro Hs. apply q_rest_seqs in Hc. simpl in Hs. lia.
-      + unfold q_rest, q_mid in Hc. apply in_app_or in Hc as [Hc|Hc]; [apply in_app_or in Hc as [Hc|Hc]|].
+      + unfold q_rest, q_mid in Hc.
+        apply in_app_or in Hc as [Hc|Hc]; [apply in_app_or in Hc as [Hc|Hc]; [apply in_app_or in Hc as [Hc|Hc]|]|].
+        * apply hook_calls_in in Hc as [[j Hj] _]. rewrite Hj. unfold tok_hook. lia.
         * apply mk_extras_in in Hc as [[j [Hj|[o Hj]]] _]; rewrite Hj; unfold tok_extra; lia.
         * unfold q_stop in Hc. destruct (f_stop f) as [st|] eqn:Es; simpl in Hc; [|destruct Hc].
           destruct Hc as [<-|[]]. simpl. exists st. split; [exact Es | reflexivity].
@@ -936,9 +991,10 @@ Section AfterFunction.
     - discriminate.
   Qed.
 
-  Lemma q_rest_toks : filter nt (map tokc q_rest) ++ rd2 = sched_tokens f.
+  Lemma q_rest_toks : filter nt (map tokc q_rest) ++ rd2 = hook_tokens 0 hs ++ sched_tokens f.
   Proof.
-    unfold q_rest, q_mid, sched_tokens, rd2. rewrite !map_app, !filter_app, mk_extras_toks, filter_nt_extras.
+    unfold q_rest, q_mid, sched_tokens, rd2, qh.
+    rewrite !map_app, !filter_app, mk_extras_toks, filter_nt_extras, hook_calls_toks, filter_nt_hook_tokens.
     unfold q_stop, q_fire. destruct (f_stop f), (f_shape f); simpl; rewrite <- ?app_assoc; reflexivity.
   Qed.
 
@@ -952,12 +1008,13 @@ Section AfterFunction.
     induction (f_reenter f) as [|o l IH]; simpl; [reflexivity | exact IH].
   Qed.
 
-  Lemma after_inv : forallb (fun b => b) re = true -> is_sync f = false -> f_stop_now f = false -> Inv cx w_after.
+  Lemma after_inv : forallb (fun b => b) re = true -> is_sync f = false -> f_stop_now f = false ->
+    stopped_early hs = false -> Inv cx w_after.
   Proof.
-    intros Hre0 Hsy Hsn.
+    intros Hre0 Hsy Hsn Hearly0.
     assert (Ew : w_after = mkW (mkReactor n (length (q_fire n s_fire f) + s_fire) (tmo :: q_rest) [] rd2 true false orc)
                                SFake (sig_fn f sg) true (mkSp None None [] true (Some sq) SV) [] re2).
-    { unfold w_after. unfold is_sync in Hsy. rewrite Hsn. destruct (f_shape f); [discriminate| |]; reflexivity. }
+    { unfold w_after, run0. unfold is_sync in Hsy. rewrite Hsn, Hearly0. destruct (f_shape f); [discriminate| |]; reflexivity. }
     rewrite Ew. constructor; unfold E; prj; try reflexivity.
     - exact q_all_nodup.
     - exact q_all_legit.
@@ -967,6 +1024,7 @@ Section AfterFunction.
     - left; reflexivity.
     - intros k [].
     - simpl. rewrite q_rest_toks. apply Permutation_refl.
+    - simpl. apply hook_tokens_ge.
   Qed.
 End AfterFunction.
 
@@ -1022,13 +1080,70 @@ Definition finish inn (real : stopfn) (e : loop_end) (wl : world) : res value ex
   | _ => (Raised EOther, w)
   end.
 
-Lemma run_body_eq batch T f n sq orc st sg su fa spn tc sv re :
+(* ---- the start-up hooks registered before run() ---- *)
+Fixpoint hook_acts (j : nat) (hs : list hook) : list action :=
+  match hs with [] => [] | h :: r => AHook j h :: hook_acts (S j) r end.
+
+Lemma hook_acts_length hs : forall j, length (hook_acts j hs) = length hs.
+Proof. induction hs as [|h hs IH]; intro j; simpl; [reflexivity|]. rewrite IH. reflexivity. Qed.
+
+Lemma reg_hooks_eq : forall hs j (r : rtor) st sg fl sp ran re,
+  reg_hooks j hs (mkW r st sg fl sp ran re) =
+  mkW (mkReactor (now r) (nextseq r) (queue r) (hooks r ++ hook_acts j hs) (readers r) (running r)
+                 (really_stopped r) (oracle r)) st sg fl sp ran re.
+Proof.
+  induction hs as [|h hs IH]; intros j r st sg fl sp ran re; simpl.
+  - rewrite app_nil_r. destruct r; reflexivity.
+  - destruct r as [rn rs rq rh rr rrun rrs ro]. unfold set_r, call_when_running, set_hooks. prj. rewrite IH. prj.
+    rewrite <- app_assoc. reflexivity.
+Qed.
+
+Lemma hook_calls_length_le n hs : forall s j, length (hook_calls n s j hs) <= length hs.
+Proof.
+  induction hs as [|h hs IH]; intros s j; [apply Nat.le_refl|].
+  destruct h as [|d|]; simpl.
+  - apply Nat.le_le_succ_r. apply IH.
+  - apply le_n_S. apply IH.
+  - apply Nat.le_le_succ_r. apply IH.
+Qed.
+
+(* all of them fire, in registration order, before the next hook (the Spinner's own) *)
+Lemma run_prehooks_eq inn a rest : forall hs j n s q hk rd run orc sg sp ran re,
+  run_hooks w_r set_r (exec_hook inn) (hook_acts j hs ++ a :: rest)
+    (mkW (mkReactor n s q hk rd run false orc) SFake sg true sp ran re)
+  = run_hooks w_r set_r (exec_hook inn) rest
+      (exec_hook inn a
+         (mkW (mkReactor n (length (hook_calls n s j hs) + s) (q ++ hook_calls n s j hs) rest rd
+                         (if stopped_early hs then false else run) false orc) SFake sg true sp ran re)).
+Proof.
+  induction hs as [|h hs IH]; intros j n s q hk rd run orc sg sp ran re.
+  - simpl. rewrite app_nil_r. reflexivity.
+  - simpl hook_acts. simpl app. simpl run_hooks. destruct h as [|d|].
+    + unfold exec_hook at 2. unfold reactor_stop, set_r, crash, set_running, set_hooks. prj.
+      rewrite IH. simpl. destruct (stopped_early hs); reflexivity.
+    + unfold exec_hook at 2. unfold later, call_later, set_r, set_hooks. prj. cbn [fst].
+      rewrite IH. simpl. rewrite <- app_assoc, Nat.add_succ_r. reflexivity.
+    + unfold exec_hook at 2. unfold set_r, set_hooks. prj. rewrite IH. reflexivity.
+Qed.
+
+Lemma run_body_eq batch T f hs n sq orc st sg su fa spn tc sv re :
   run_body (inner_run 0 batch) 0 batch T f
-    (mkW (mkReactor n sq [] [] [] false false orc) st sg true (mkSp su fa [] spn tc sv) [] re)
-  = let '(e, wl) := loop w_r set_r (exec_call (inner_run 0 batch)) batch (1 + length (f_extras f) + 4)
-                         (run_function (inner_run 0 batch) f (w_hook n T sq orc (sig_run sg) (saved_of sg) re)) in
+    (mkW (mkReactor n sq [] (hook_acts 0 hs) [] false false orc) st sg true (mkSp su fa [] spn tc sv) [] re)
+  = let '(e, wl) := loop w_r set_r (exec_call (inner_run 0 batch)) batch
+                         (1 + length (hook_acts 0 hs ++ [ARunFunction T f]) + length (f_extras f) + 4)
+                         (run_function (inner_run 0 batch) f (w_hook n T sq orc (sig_run sg) (saved_of sg) re hs)) in
     finish (inner_run 0 batch) st e wl.
-Proof. reflexivity. Qed.
+Proof.
+  transitivity
+    (let '(e, wl) := loop w_r set_r (exec_call (inner_run 0 batch)) batch
+                          (1 + length (hook_acts 0 hs ++ [ARunFunction T f]) + length (f_extras f) + 4)
+                          (run_hooks w_r set_r (exec_hook (inner_run 0 batch)) (hook_acts 0 hs ++ [ARunFunction T f])
+                             (mkW (mkReactor n (S sq) [tmo n T sq] (hook_acts 0 hs ++ [ARunFunction T f]) [] true false orc)
+                                  SFake (sig_run sg) true (mkSp None None [] true (Some sq) (saved_of sg)) [] re)) in
+     finish (inner_run 0 batch) st e wl); [reflexivity|].
+  rewrite run_prehooks_eq. simpl run_hooks.
+  unfold w_hook, qh, sqn, run0. destruct (stopped_early hs); reflexivity.
+Qed.
 
 Lemma finish_ok inn real wl : running (w_r wl) = false -> hooks (w_r wl) = [] -> really_stopped (w_r wl) = false ->
   w_flag wl = true -> sp_junk (w_sp wl) = [] ->
@@ -1063,37 +1178,39 @@ Qed.
 
 Lemma legit_tok0 x c : legit x c -> tokc c = 0 -> dc_seq c = c_s x.
 Proof.
-  unfold legit, tokc. intros [_ H] Ht. destruct (dc_act c) as [|o| |tk|tk oo|]; simpl in *; try discriminate.
+  unfold legit, tokc. intros [_ H] Ht. destruct (dc_act c) as [|o| |tk|tk oo| |]; simpl in *; try discriminate.
   - apply H.
   - lia.
   - lia.
+  - destruct H.
   - destruct H.
 Qed.
 
 Definition restored (sg0 sg' : sigtab) : Prop :=
   forall s, In s preserved_signals -> getsig s sg0 <> h_none -> getsig s sg' = getsig s sg0.
 
-Theorem run_fresh batch T f w : Idle w -> sp_junk (w_sp w) = [] -> w_ran w = [] -> w_reentry w = [] ->
-  exists r w', run 0 batch T f w = (r, w') /\ Idle w' /\ w_stop w' = w_stop w
-    /\ allowed T f (w_ran w') r = true
+Theorem run_fresh batch T f hs w : Idle w -> sp_junk (w_sp w) = [] -> w_ran w = [] -> w_reentry w = [] ->
+  exists r w', run 0 batch T f (reg_hooks 0 hs w) = (r, w') /\ Idle w' /\ w_stop w' = w_stop w
+    /\ allowed (stopped_early hs) T f (w_ran w') r = true
     /\ reentry_okb f (w_reentry w') = true
-    /\ Permutation (filter nt (w_ran w') ++ filter nt (sp_junk (w_sp w'))) (sched_tokens f)
+    /\ Permutation (filter nt (w_ran w') ++ filter nt (sp_junk (w_sp w'))) (hook_tokens 0 hs ++ sched_tokens f)
     /\ (In tok_timeout (sp_junk (w_sp w')) -> r = Raised ENoResult)
     /\ restored (w_sig w) (w_sig w').
 Proof.
   intros [Hrun Hq Hrd Hhk Hrs Hfl] Hjk Hran Hre0.
   destruct w as [[n sq q h rd run rs orc] st sg fl [su fa jk spn tc sv] ran re]. prj. subst.
+  rewrite reg_hooks_eq. prj. cbn [app].
   unfold run, guarded. prj. cbv iota. unfold set_flag at 1. prj.
   rewrite run_body_eq, run_function_eq.
   set (SG := sig_run sg). set (SV := saved_of sg).
   assert (Hrest : forall w3 sgl, w_sig w3 = setsigs SV sgl -> restored sg (w_sig (set_flag false w3))).
   { intros w3 sgl H1 s Hs Hn. unfold set_flag; prj. rewrite H1. unfold SV, saved_of.
     apply (getsig_restore (fun s => getsig s sg)); assumption. }
-  destruct (is_sync f) eqn:Hsy; [|destruct (f_stop_now f) eqn:Hsn].
+  destruct (is_sync f) eqn:Hsy; [|destruct (f_stop_now f || stopped_early hs) eqn:Hse].
   - (* the function returned a result synchronously *)
     unfold is_sync in Hsy. destruct (f_shape f) as [how o| |] eqn:Es; try discriminate.
-    assert (Ew : w_after n T f sq orc SG SV [] =
-                 mkW (mkReactor n (s_fire n f sq) (q_rest n f sq) [] (rd2 f) false false orc) SFake (sig_fn f SG) true
+    assert (Ew : w_after n T f sq orc SG SV [] hs =
+                 mkW (mkReactor n (s_fire n f sq hs) (q_rest n f sq hs) [] (rd2 f) false false orc) SFake (sig_fn f SG) true
                      (mkSp (match o with Succeed v => Some v | Fail _ => None end)
                            (match o with Succeed _ => None | Fail e => Some (EUser e) end)
                            [] false (Some sq) SV) [] (re2 f [])).
@@ -1107,34 +1224,39 @@ Proof.
     + simpl. rewrite filter_app, filter_nt_rd2. rewrite q_rest_toks. apply Permutation_refl.
     + intro Hin. exfalso. apply in_app_or in Hin as [Hin|Hin].
       * apply in_map_iff in Hin as [c [Ht Hc]].
-        pose proof (q_all_legit n T f sq SG SV) as Hl. inversion Hl as [|? ? _ Hl']; subst.
+        pose proof (q_all_legit n T f sq SG SV hs) as Hl. inversion Hl as [|? ? _ Hl']; subst.
         eapply Forall_forall in Hl'; [|exact Hc]. apply legit_tok0 in Hl'; [|exact Ht].
         apply q_rest_seqs in Hc. simpl in Hl'. lia.
       * apply rd2_toks in Hin. unfold tok_timeout in Hin. lia.
     + apply (Hrest w3 _ Hsg).
   - (* the function stopped the reactor itself and returned an unfired Deferred *)
-    assert (Ew : w_after n T f sq orc SG SV [] =
-                 mkW (mkReactor n (length (q_fire n (s_fire n f sq) f) + s_fire n f sq) (tmo n T sq :: q_rest n f sq) [] (rd2 f) false false orc)
+    assert (Ew : w_after n T f sq orc SG SV [] hs =
+                 mkW (mkReactor n (length (q_fire n (s_fire n f sq hs) f) + s_fire n f sq hs) (tmo n T sq :: q_rest n f sq hs) [] (rd2 f) false false orc)
                      SFake (sig_fn f SG) true (mkSp None None [] true (Some sq) SV) [] (re2 f [])).
-    { unfold w_after. unfold is_sync in Hsy. rewrite Hsn. destruct (f_shape f); [discriminate| |]; reflexivity. }
+    { unfold w_after, run0. unfold is_sync in Hsy.
+      destruct (f_stop_now f), (stopped_early hs); try discriminate Hse;
+        (destruct (f_shape f); [discriminate| |]; reflexivity). }
     rewrite Ew. rewrite loop_stopped by reflexivity.
     match goal with |- context [finish ?ii ?rl LDone ?wl] => destruct (finish_ok ii rl wl) as [w3 [Ef [Hid [Hst3 [Hj [Hr [Hre Hsg]]]]]]]; try reflexivity end.
     rewrite Ef. prj. eexists; eexists. split; [reflexivity|]. split; [exact Hid|]. split; [exact Hst3|].
     unfold set_flag; prj. rewrite Hj, Hr, Hre. prj.
     split; [|split; [exact (re2_ok f [] eq_refl)|split; [|split]]].
-    + unfold allowed. rewrite Hsn. unfold is_sync in Hsy. destruct (f_shape f); [discriminate| |]; reflexivity.
+    + unfold allowed. rewrite Hse. unfold is_sync in Hsy. destruct (f_shape f); [discriminate| |]; reflexivity.
     + simpl. rewrite filter_app, filter_nt_rd2. rewrite q_rest_toks. apply Permutation_refl.
     + intros _. reflexivity.
     + apply (Hrest w3 _ Hsg).
   - (* the reactor spins until one of the three events ends the run *)
-    pose proof (after_inv n T f sq orc SG SV [] eq_refl Hsy Hsn) as HI0.
-    destruct (loop_ok (cx n T f sq SG SV) batch (inner_run 0 batch) (inner_refused 0 batch)
-                      (1 + length (f_extras f) + 4) _ HI0) as [wl [El [HI Hrunl]]].
-    { assert (Hl : length (queue (w_r (w_after n T f sq orc SG SV []))) <= 1 + length (f_extras f) + 2).
-      { unfold w_after. unfold is_sync in Hsy. destruct (f_shape f) eqn:Es; [discriminate| |]; prj; simpl length;
-          unfold q_rest, q_mid; rewrite !app_length, mk_extras_length; unfold q_stop, q_fire; rewrite Es;
+    apply orb_false_iff in Hse as [Hsn Hearly0].
+    pose proof (after_inv n T f sq orc SG SV [] hs eq_refl Hsy Hsn Hearly0) as HI0.
+    destruct (loop_ok (cx n T f sq SG SV hs) batch (inner_run 0 batch) (inner_refused 0 batch)
+                      (1 + length (hook_acts 0 hs ++ [ARunFunction T f]) + length (f_extras f) + 4) _ HI0)
+      as [wl [El [HI Hrunl]]].
+    { assert (Hl : length (queue (w_r (w_after n T f sq orc SG SV [] hs))) <= 1 + length hs + length (f_extras f) + 2).
+      { pose proof (hook_calls_length_le n hs (S sq) 0) as Hh.
+        unfold w_after. unfold is_sync in Hsy. destruct (f_shape f) eqn:Es; [discriminate| |]; prj; simpl length;
+          unfold q_rest, q_mid, qh; rewrite !app_length, mk_extras_length; unfold q_stop, q_fire; rewrite Es;
           destruct (f_stop f); simpl; lia. }
-      lia. }
+      rewrite app_length, hook_acts_length. simpl. lia. }
     rewrite El.
     destruct (finish_ok (inner_run 0 batch) st wl Hrunl (i_hooks _ _ HI) (i_rs _ _ HI) (i_flag _ _ HI) (i_junk _ _ HI))
       as [w3 [Ef [Hid [Hst3 [Hj [Hr [Hre Hsg]]]]]]].
@@ -1142,7 +1264,7 @@ Proof.
     unfold set_flag; prj. rewrite Hj, Hr, Hre.
     pose proof (st_decided _ _ _ _ (i_st _ _ HI)) as Hdec. simpl c_f in Hdec.
     split; [|split; [|split; [|split]]].
-    + unfold allowed. rewrite Hsn. unfold is_sync in Hsy.
+    + unfold allowed. rewrite Hsn, Hearly0. simpl orb. unfold is_sync in Hsy.
       assert (Hgoal : negb (Nat.eqb (length (crash_toks (w_ran wl))) 0)
                       && forallb (fun k => option_eqb Nat.eqb (ev_time T f k) (Some (earliest (events T f))))
                                  (crash_toks (w_ran wl))
@@ -1232,6 +1354,28 @@ Proof.
   - destruct w as [r st sg fl sp ran re]. destruct (r_clear rs); exact H.
 Qed.
 
+(* the harness takes back hooks that never fired (a refused run does not start the reactor) *)
+Definition unhook (w : world) : world := set_r (set_hooks [] (w_r w)) w.
+
+Lemma unhook_idle w : Idle w -> Idle (unhook w).
+Proof. intros [H1 H2 H3 H4 H5 H6]. destruct w as [[n sq q h rd run rs orc] st sg fl sp ran re]. constructor; try assumption; reflexivity. Qed.
+
+Lemma unhook_frame w : sp_junk (w_sp (unhook w)) = sp_junk (w_sp w) /\ w_stop (unhook w) = w_stop w.
+Proof. destruct w as [[n sq q h rd run rs orc] st sg fl sp ran re]. split; reflexivity. Qed.
+
+Lemma unhook_reg hs w : Idle w -> Idle (unhook (reg_hooks 0 hs w)).
+Proof.
+  intros [H1 H2 H3 H4 H5 H6]. destruct w as [[n sq q h rd run rs orc] st sg fl sp ran re].
+  rewrite reg_hooks_eq. constructor; try assumption; reflexivity.
+Qed.
+
+Lemma reg_hooks_frame hs w :
+  w_flag (reg_hooks 0 hs w) = w_flag w /\ w_sp (reg_hooks 0 hs w) = w_sp w /\ w_stop (reg_hooks 0 hs w) = w_stop w
+  /\ w_sig (reg_hooks 0 hs w) = w_sig w /\ w_ran (reg_hooks 0 hs w) = w_ran w /\ w_reentry (reg_hooks 0 hs w) = w_reentry w
+  /\ running (w_r (reg_hooks 0 hs w)) = running (w_r w) /\ queue (w_r (reg_hooks 0 hs w)) = queue (w_r w)
+  /\ readers (w_r (reg_hooks 0 hs w)) = readers (w_r w) /\ really_stopped (w_r (reg_hooks 0 hs w)) = really_stopped (w_r w).
+Proof. destruct w as [r st sg fl sp ran re]. rewrite reg_hooks_eq. repeat split; reflexivity. Qed.
+
 Lemma step_ok batch ps w rs : Idle w -> wf_run rs -> id_of_stop (w_stop w) = ps ->
   run_okb (if r_clear rs then [] else sort_toks (sp_junk (w_sp w))) (stop_before ps rs) rs (fst (step batch w rs)) = true
   /\ Idle (snd (step batch w rs))
@@ -1240,6 +1384,7 @@ Lemma step_ok batch ps w rs : Idle w -> wf_run rs -> id_of_stop (w_stop w) = ps 
 Proof.
   intros Hid Hwf Hps. unfold step. rewrite tab_iterations.
   fold (prepare rs w). set (w3 := prepare rs w).
+  match goal with |- context [set_r (set_hooks [] (w_r ?x)) ?x] => idtac end || idtac.
   pose proof (idle_prepare rs w Hid) as Hid3. fold w3 in Hid3.
   pose proof (prepare_stop ps rs w Hps) as Hst3. fold w3 in Hst3.
   assert (Hsig3 : map (fun s => getsig s (w_sig w3)) reactor_signals = r_pre rs).
@@ -1252,9 +1397,10 @@ Proof.
     destruct (r_clear rs), (r_stop rs); reflexivity. }
   destruct (sp_junk (w_sp w3)) as [|j0 jr] eqn:Ej.
   - (* no stale junk: the run takes place *)
-    destruct (run_fresh batch (r_timeout rs) (r_fn rs) w3 Hid3 Ej Hran3 Hre3)
+    destruct (run_fresh batch (r_timeout rs) (r_fn rs) (r_hooks rs) w3 Hid3 Ej Hran3 Hre3)
       as [r [w' [Er [Hid' [Hst' [Hal [Hre [Hperm [Hown Hrest]]]]]]]]].
-    rewrite Er. cbn [fst snd]. split; [|split; [exact Hid' | split; [reflexivity | rewrite Hst'; exact Hst3]]].
+    rewrite Er. cbn [fst snd]. fold (unhook w'). destruct (unhook_frame w') as [Hu1 Hu2].
+    split; [|split; [exact (unhook_idle w' Hid') | split; [rewrite Hu1; reflexivity | rewrite Hu2, Hst'; exact Hst3]]].
     assert (Hstale : (if r_clear rs then [] else sort_toks (sp_junk (w_sp w))) = []).
     { destruct (r_clear rs); [reflexivity|]. rewrite <- Hj3. reflexivity. }
     rewrite Hstale. unfold run_okb, clean_okb, observe.
@@ -1276,10 +1422,15 @@ Proof.
     assert (Hc : r_clear rs = false).
     { destruct (r_clear rs); [discriminate | reflexivity]. }
     rewrite Hc in *. rewrite <- Hj3.
-    rewrite (run_stale 0 batch (r_timeout rs) (r_fn rs) w3 (id_flag _ Hid3)) by (rewrite Ej; discriminate).
-    cbn [fst snd]. split; [|split; [exact Hid3 | split; [reflexivity | exact Hst3]]].
+    destruct (reg_hooks_frame (r_hooks rs) w3) as [Hf1 [Hf2 [Hf3 [Hf4 [Hf5 [Hf6 [Hf7 [Hf8 [Hf9 Hf10]]]]]]]]].
+    rewrite (run_stale 0 batch (r_timeout rs) (r_fn rs) (reg_hooks 0 (r_hooks rs) w3));
+      [| rewrite Hf1; exact (id_flag _ Hid3) | rewrite Hf2, Ej; discriminate].
+    cbn [fst snd]. fold (unhook (reg_hooks 0 (r_hooks rs) w3)).
+    destruct (unhook_frame (reg_hooks 0 (r_hooks rs) w3)) as [Hu1 Hu2].
+    split; [|split; [exact (unhook_reg _ w3 Hid3) | split; [unfold observe; cbn [o_junk]; rewrite Hu1, Hf2; reflexivity | rewrite Hu2, Hf3; exact Hst3]]].
     unfold run_okb, clean_okb, observe.
     cbn [o_res o_reentry o_ran o_order o_junk o_running o_pending o_readers o_stop o_stopped o_sigs].
+    rewrite Hf2, Hf3, Hf4, Hf5, Hf6, Hf7, Hf8, Hf9, Hf10.
     destruct Hid3 as [H1 H2 H3 H4 H5 H7]. rewrite H1, H2, H3, H5, Hst3, !Nat.eqb_refl, Hsig3, Hran3, Hre3, sigs_okb_refl.
     cbn [length negb Nat.eqb andb].
     rewrite Ej. destruct (sort_toks (j0 :: jr)) as [|s0 sr] eqn:Es.
@@ -1312,23 +1463,25 @@ Qed.
 (* a reactor at rest, driven by a Spinner that is not inside run(), with the harness's log reset *)
 Definition Ready (w : world) : Prop := Idle w /\ w_ran w = [] /\ w_reentry w = [].
 
-Definition run1 (batch : bool) (T : time) (f : fn) (w : world) := run spinner_iterations batch T f w.
+(* hs: the start-up hooks somebody registered on the reactor before run() is entered *)
+Definition run1 (hs : list hook) (batch : bool) (T : time) (f : fn) (w : world) :=
+  run spinner_iterations batch T f (reg_hooks 0 hs w).
 
-Theorem clause_result batch T f w : Ready w -> sp_junk (w_sp w) = [] ->
-  Allowed T f (w_ran (snd (run1 batch T f w))) (fst (run1 batch T f w)).
+Theorem clause_result hs batch T f w : Ready w -> sp_junk (w_sp w) = [] ->
+  Allowed (stopped_early hs) T f (w_ran (snd (run1 hs batch T f w))) (fst (run1 hs batch T f w)).
 Proof.
   intros [Hid [Hran Hre0]] Hj. unfold run1. rewrite tab_iterations.
-  destruct (run_fresh batch T f w Hid Hj Hran Hre0) as [r [w' [Er [_ [_ [Hal _]]]]]]. rewrite Er. cbn [fst snd].
+  destruct (run_fresh batch T f hs w Hid Hj Hran Hre0) as [r [w' [Er [_ [_ [Hal _]]]]]]. rewrite Er. cbn [fst snd].
   apply allowed_sound. exact Hal.
 Qed.
 
 (* when exactly one of the three events is due at the earliest instant, the result is that event's *)
 Lemma allowed_unique T f order r k0 :
-  is_sync f = false -> f_stop_now f = false -> Allowed T f order r ->
+  is_sync f = false -> f_stop_now f = false -> Allowed false T f order r ->
   (forall k, ev_time T f k = Some (earliest (events T f)) -> k = k0) ->
   r = decided f [k0].
 Proof.
-  intros Hsy Hsn Hal Hu. unfold Allowed in Hal. unfold is_sync in Hsy. rewrite Hsn in Hal.
+  intros Hsy Hsn Hal Hu. unfold Allowed in Hal. unfold is_sync in Hsy. rewrite Hsn in Hal. simpl orb in Hal.
   assert (H : let E := crash_toks order in
               E <> [] /\ (forall k, In k E -> exists t, ev_time T f k = Some t /\ In t (map fst (events T f))
                                                       /\ forall ev, In ev (events T f) -> t <= fst ev)
@@ -1355,14 +1508,14 @@ Lemma min_l_lt a b : a < b -> Nat.min a b = a. Proof. intro; apply Nat.min_l; li
 Lemma min_r_lt a b : b < a -> Nat.min a b = b. Proof. intro; apply Nat.min_r; lia. Qed.
 
 (* the timings the statement names, without ties: nobody stops the reactor *)
-Theorem clause_result_untied batch T f w r : Ready w -> sp_junk (w_sp w) = [] ->
-  f_stop f = None -> f_stop_now f = false -> r = fst (run1 batch T f w) ->
+Theorem clause_result_untied hs batch T f w r : Ready w -> sp_junk (w_sp w) = [] -> stopped_early hs = false ->
+  f_stop f = None -> f_stop_now f = false -> r = fst (run1 hs batch T f w) ->
   (forall how o, f_shape f = Sync how o -> r = result_of o)
   /\ (forall t o, f_shape f = Later t o -> t < T -> r = result_of o)
   /\ (forall t o, f_shape f = Later t o -> T < t -> r = Raised ETimeout)
   /\ (f_shape f = Never -> r = Raised ETimeout).
 Proof.
-  intros Hr Hj Hstop Hsn ->. pose proof (clause_result batch T f w Hr Hj) as Hal.
+  intros Hr Hj He Hstop Hsn ->. pose proof (clause_result hs batch T f w Hr Hj) as Hal. rewrite He in Hal.
   repeat split.
   - intros how o Es. unfold Allowed in Hal. rewrite Es in Hal. exact Hal.
   - intros t o Es Hlt. rewrite (allowed_unique T f _ _ 1 ltac:(unfold is_sync; rewrite Es; reflexivity) Hsn Hal).
@@ -1382,12 +1535,12 @@ Proof.
 Qed.
 
 (* ... and a stop request that comes strictly first: NoResultError *)
-Theorem clause_result_stopped batch T f w s : Ready w -> sp_junk (w_sp w) = [] ->
+Theorem clause_result_stopped hs batch T f w s : Ready w -> sp_junk (w_sp w) = [] -> stopped_early hs = false ->
   is_sync f = false -> f_stop_now f = false -> f_stop f = Some s -> s < T ->
   (forall t o, f_shape f = Later t o -> s < t) ->
-  fst (run1 batch T f w) = Raised ENoResult.
+  fst (run1 hs batch T f w) = Raised ENoResult.
 Proof.
-  intros Hr Hj Hsy Hsn Hstop Hlt Hsh. pose proof (clause_result batch T f w Hr Hj) as Hal.
+  intros Hr Hj He Hsy Hsn Hstop Hlt Hsh. pose proof (clause_result hs batch T f w Hr Hj) as Hal. rewrite He in Hal.
   rewrite (allowed_unique T f _ _ 2 Hsy Hsn Hal); [reflexivity|].
   unfold events, earliest, ev_time. rewrite Hstop. unfold is_sync in Hsy. unfold time in *.
   destruct (f_shape f) as [|t o|] eqn:Es; [discriminate| |]; simpl.
@@ -1398,48 +1551,65 @@ Proof.
     intros [|[|[|k]]] H; try reflexivity; try discriminate; injection H as H; lia.
 Qed.
 
-Theorem clause_reentry batch T f w : Ready w -> sp_junk (w_sp w) = [] ->
-  (forall b, In b (w_reentry (snd (run1 batch T f w))) -> b = true)
-  /\ length (f_reenter f) <= length (w_reentry (snd (run1 batch T f w)))
-  /\ w_flag (snd (run1 batch T f w)) = false.
+Theorem clause_reentry hs batch T f w : Ready w -> sp_junk (w_sp w) = [] ->
+  (forall b, In b (w_reentry (snd (run1 hs batch T f w))) -> b = true)
+  /\ length (f_reenter f) <= length (w_reentry (snd (run1 hs batch T f w)))
+  /\ w_flag (snd (run1 hs batch T f w)) = false.
 Proof.
   intros [Hid [Hran Hre0]] Hj. unfold run1. rewrite tab_iterations.
-  destruct (run_fresh batch T f w Hid Hj Hran Hre0) as [r [w' [Er [Hid' [_ [_ [Hr _]]]]]]]. rewrite Er. cbn [snd].
+  destruct (run_fresh batch T f hs w Hid Hj Hran Hre0) as [r [w' [Er [Hid' [_ [_ [Hr _]]]]]]]. rewrite Er. cbn [snd].
   unfold reentry_okb in Hr. apply andb_true_iff in Hr as [H1 H2]. rewrite forallb_forall in H1.
   split; [intros b Hb; exact (H1 b Hb)|]. split; [apply Nat.leb_le; exact H2 | exact (id_flag _ Hid')].
 Qed.
 
-Theorem clause_stale batch T f w : Ready w -> sp_junk (w_sp w) <> [] ->
-  run1 batch T f w = (Raised EStaleJunk, w).
-Proof. intros [Hid _] Hj. apply run_stale; [exact (id_flag _ Hid) | exact Hj]. Qed.
+Theorem clause_stale hs batch T f w : Ready w -> sp_junk (w_sp w) <> [] ->
+  run1 hs batch T f w = (Raised EStaleJunk, reg_hooks 0 hs w).
+Proof.
+  intros [Hid _] Hj. destruct (reg_hooks_frame hs w) as [Hf1 [Hf2 _]].
+  apply run_stale; [rewrite Hf1; exact (id_flag _ Hid) | rewrite Hf2; exact Hj].
+Qed.
 
-Theorem clause_clean batch T f w : Ready w ->
-  let w' := snd (run1 batch T f w) in
+Theorem clause_clean hs batch T f w : Ready w ->
+  let w' := snd (run1 hs batch T f w) in
   running (w_r w') = false /\ queue (w_r w') = [] /\ readers (w_r w') = [] /\ w_flag w' = false
   /\ (sp_junk (w_sp w) = [] ->
-      Permutation (filter nt (w_ran w') ++ filter nt (sp_junk (w_sp w'))) (sched_tokens f)
-      /\ (In tok_timeout (sp_junk (w_sp w')) -> fst (run1 batch T f w) = Raised ENoResult)).
+      Permutation (filter nt (w_ran w') ++ filter nt (sp_junk (w_sp w'))) (hook_tokens 0 hs ++ sched_tokens f)
+      /\ (In tok_timeout (sp_junk (w_sp w')) -> fst (run1 hs batch T f w) = Raised ENoResult)).
 Proof.
   intros [Hid [Hran Hre0]]. cbv zeta. destruct (sp_junk (w_sp w)) as [|j0 jr] eqn:Ej.
   - unfold run1. rewrite tab_iterations.
-    destruct (run_fresh batch T f w Hid Ej Hran Hre0) as [r [w' [Er [Hid' [_ [_ [_ [Hp [Ho _]]]]]]]]]. rewrite Er. cbn [fst snd].
+    destruct (run_fresh batch T f hs w Hid Ej Hran Hre0) as [r [w' [Er [Hid' [_ [_ [_ [Hp [Ho _]]]]]]]]]. rewrite Er. cbn [fst snd].
     destruct Hid'. repeat split; assumption.
-  - rewrite (clause_stale batch T f w (conj Hid (conj Hran Hre0))) by (rewrite Ej; discriminate). cbn [snd].
+  - rewrite (clause_stale hs batch T f w (conj Hid (conj Hran Hre0))) by (rewrite Ej; discriminate). cbn [snd].
+    destruct (reg_hooks_frame hs w) as [Hf1 [_ [_ [_ [_ [_ [Hf7 [Hf8 [Hf9 _]]]]]]]]]. rewrite Hf1, Hf7, Hf8, Hf9.
     destruct Hid. repeat split; try assumption; discriminate.
 Qed.
 
-Theorem clause_restored batch T f w : Ready w ->
-  let w' := snd (run1 batch T f w) in
+Theorem clause_restored hs batch T f w : Ready w ->
+  let w' := snd (run1 hs batch T f w) in
   w_stop w' = w_stop w /\ really_stopped (w_r w') = false
   /\ forall s, In s reactor_signals -> getsig s (w_sig w) <> h_none -> getsig s (w_sig w') = getsig s (w_sig w).
 Proof.
   intros [Hid [Hran Hre0]]. cbv zeta. destruct (sp_junk (w_sp w)) as [|j0 jr] eqn:Ej.
   - unfold run1. rewrite tab_iterations.
-    destruct (run_fresh batch T f w Hid Ej Hran Hre0) as [r [w' [Er [Hid' [Hst' [_ [_ [_ [_ Hrest]]]]]]]]]. rewrite Er. cbn [snd].
+    destruct (run_fresh batch T f hs w Hid Ej Hran Hre0) as [r [w' [Er [Hid' [Hst' [_ [_ [_ [_ Hrest]]]]]]]]]. rewrite Er. cbn [snd].
     split; [exact Hst'|]. split; [exact (id_rs _ Hid')|].
     intros s Hs Hn. apply Hrest; [apply tab_preserved; exact Hs | exact Hn].
-  - rewrite (clause_stale batch T f w (conj Hid (conj Hran Hre0))) by (rewrite Ej; discriminate). cbn [snd].
+  - rewrite (clause_stale hs batch T f w (conj Hid (conj Hran Hre0))) by (rewrite Ej; discriminate). cbn [snd].
+    destruct (reg_hooks_frame hs w) as [_ [_ [Hf3 [Hf4 [_ [_ [_ [_ [_ Hf10]]]]]]]]]. rewrite Hf3, Hf4, Hf10.
     split; [reflexivity|]. split; [exact (id_rs _ Hid)|]. reflexivity.
+Qed.
+
+(* stopped while starting up: whatever the function returns synchronously is still the result; a Deferred that has
+   not fired by then never will - NoResultError, whatever its timing *)
+Theorem clause_result_early hs batch T f w : Ready w -> sp_junk (w_sp w) = [] -> stopped_early hs = true ->
+  (forall how o, f_shape f = Sync how o -> fst (run1 hs batch T f w) = result_of o)
+  /\ (is_sync f = false -> fst (run1 hs batch T f w) = Raised ENoResult).
+Proof.
+  intros Hr Hj He. pose proof (clause_result hs batch T f w Hr Hj) as Hal. rewrite He in Hal.
+  unfold Allowed in Hal. split.
+  - intros how o Es. rewrite Es in Hal. exact Hal.
+  - intro Hsy. unfold is_sync in Hsy. rewrite orb_true_r in Hal. destruct (f_shape f); [discriminate| |]; exact Hal.
 Qed.
 
 Theorem clause_histories i : wf i -> Spec i (model i).
